@@ -54,3 +54,18 @@ Theorem C08_series_when_idle :
                          [SWrite 0 [1]; SWrite 200000000 [2]] []) = Some l /\
             sink_trace l = [(150000000, 1); (350000000, 1)].
 Proof. eexists. split; vm_compute; reflexivity. Qed.
+
+(** ---- sequences: with jitter 0 the stage's run over any sequence of chunks is the closed form
+    e_k = max(p_k, stamp_k + latency) (p_k = when the stage picked chunk k up) ... *)
+From TP Require Import Proofs.StageFeed Proofs.FeedProofs.
+Theorem C08_sequence_closed_form : forall lat fuel, (1 < fuel)%nat -> forall ps, ms_ok lat -> forall arr,
+  feed (TLatency lat 0) fuel ps (Idle 0 None) (arrivals arr) = (lat_sched (lat * 1000000) arr, Idle 0 None, ps).
+Proof. exact lat_feed. Qed.
+
+(** ... so a burst - chunks stamped at one instant and picked up back to back, however many - leaves
+    at one instant, stamp + latency: every chunk is delayed once, counted from its arrival, and the
+    toxic does not throttle *)
+Theorem C08_burst_is_delayed_once : forall L ts arr,
+  Forall (fun pc => cts (snd pc) = ts /\ fst pc <= ts + L) arr ->
+  Forall (fun e => fst e = ts + L) (lat_sched L arr).
+Proof. exact lat_burst. Qed.
